@@ -1,12 +1,31 @@
 from driver import Unit
 
-MEM = {"crash", "hang", "alloc", "uninit"}
+MEM = {"crash", "hang", "alloc", "uninit", "lifetime"}  # lifetime: use of / second destruction of a destroyed element is undefined behaviour
 
 
 def reuse(name, src, defs, shards=4, stride=None, quick=True, std="c++20"):
     args = ["--stride", str(stride)] if stride else []
     return Unit(name, src, defs=defs, std=std, flavours={"quick": ["asan-cc"] if quick else [], "thorough": ["asan-cc", "asan-nocc"]},
                 shards={"quick": shards, "thorough": 16}, only_kinds=MEM, args=args if quick else [])
+
+
+def clone(prop, stride_q, stride_t=1, pick=None):
+    """re-run another property's ASan workloads for their sanitizer/crash/lifetime records only"""
+    import importlib.util, os
+    here = os.path.dirname(os.path.abspath(__file__))
+    spec = importlib.util.spec_from_file_location("c02_clone_" + prop, os.path.join(here, prop + ".py"))
+    mod = importlib.util.module_from_spec(spec)
+    spec.loader.exec_module(mod)
+    out = []
+    for u in mod.P["units"]:
+        fq = [f for f in u.flavours.get("quick", []) if f.startswith("asan")]
+        if not fq or u.only_kinds or u.name.count("probe") or (pick and not pick(u)):
+            continue
+        base_args = u.args if not isinstance(u.args, dict) else []
+        out.append(Unit("C02_" + u.name, u.src, std=u.std, defs=u.defs, gen=u.gen, flavours={"quick": fq[:1], "thorough": fq[:1]}, shards=u.shards,
+                        only_kinds=MEM, libs=u.libs,
+                        args={"quick": base_args + ["--stride", str(stride_q)], "thorough": base_args + (["--stride", str(stride_t)] if stride_t > 1 else [])}))
+    return out
 
 
 def chars(c):
@@ -43,7 +62,8 @@ P = dict(
         reuse("C02_sv_char", "harness/C08_sv.cpp", chars("char"), stride=2, shards=8),
         reuse("C02_cstr_char", "harness/C18_str.cpp", ["-DVF_WIDE=0"], stride=4, shards=8),
         reuse("C02_cmem_char", "harness/C18_mem.cpp", ["-DVF_WIDE=0"], stride=4),
-    ],
+    ] + clone("C06", 4) + clone("C09", 4, 2, pick=lambda u: u.name.endswith(("_p0", "_tracked", "fmset")))
+    + clone("C10", 8, 2) + clone("C14", 4, 2, pick=lambda u: u.name.endswith(("_0", "_2"))) + clone("C17", 4, 2, pick=lambda u: u.name.endswith(("_g0", "_g2"))),
     floor={"quick": 200000, "thorough": 2000000},
     assumptions=["gcc 12 ASan/UBSan and valgrind 3.19 memcheck report the accesses they are documented to report", "the malloc-family interposers in the harness binary see every allocation of the process (static glibc symbols __libc_malloc etc. forward the real work)"],
 )
